@@ -317,7 +317,7 @@ func main() {
 }
 
 func genCases(a vh.Args, samples []Sample) []*tcase {
-	perOp, nByte, nAny, nAnyMut := 2, 10, 400, 1500
+	perOp, nByte, nAny, nAnyMut := 2, 10, 400, 1200
 	if a.Tier == "thorough" {
 		perOp, nByte, nAny, nAnyMut = 8, 40, 3000, 12000
 	}
@@ -327,9 +327,9 @@ func genCases(a vh.Args, samples []Sample) []*tcase {
 	var cases []*tcase
 	mutated := map[string]int{}
 	fixedDone := map[string]bool{}
-	maxExpensive := 1
+	maxExpensive, maxPerType := 1, 6
 	if a.Tier == "thorough" || a.Search {
-		maxExpensive = 4
+		maxExpensive, maxPerType = 4, 1 << 30
 	}
 	for i := range samples {
 		s := &samples[i]
@@ -351,11 +351,9 @@ func genCases(a vh.Args, samples []Sample) []*tcase {
 			}
 		}
 		// types whose constructor does group arithmetic per decode: mutate only the first few samples
-		if expensive(s.Type) {
-			mutated[s.Type]++
-			if mutated[s.Type] > maxExpensive {
-				continue
-			}
+		mutated[s.Type]++
+		if (expensive(s.Type) && mutated[s.Type] > maxExpensive) || mutated[s.Type] > maxPerType {
+			continue
 		}
 		r := vh.NewRng(a.Seed, "C12", "mut/"+s.Type, i)
 		heavy := len(s.Bytes) > 4000
